@@ -83,6 +83,13 @@ def sphere_jobs(rng, tier):
              "tag": "core"},
             {"kind": "sphere", "lon": [p[0] for p in SPHERE_CORE[:20]], "lat": [p[1] for p in SPHERE_CORE[:20]],
              "radius": 1000000.0, "tag": "core_radius_1e6"}]
+    # non-default radius: always with exactly antipodal pairs, nearly antipodal pairs and pole to pole
+    anti = [(0, 90), (77, 90), (0, -90), (-130, -90), (0, 0), (180, 0), (-180, 0), (10, 20), (-170, -20),
+            (90, 45), (-90, -45), (45, 0), (-135, 0), (-60, 30), (120, -30), (179, 1), (-179, -1), (-171, -19),
+            (121, -29), (1, 89), (-179, -89), (30, 60)]
+    for rad in (6371000.0, 1.0, 1000000.0, 2.5):
+        jobs.append({"kind": "sphere", "lon": [p[0] for p in anti], "lat": [p[1] for p in anti], "radius": rad,
+                     "tag": "antipodes_radius_%g" % rad})
     # argument types: python ints, numpy scalars of every dtype (unsigned: the non-negative quadrant), mixed
     signed = SPHERE_CORE[:5] + SPHERE_CORE[5:9] + SPHERE_CORE[13:20] + SPHERE_CORE[-7:]
     quad = [(0, 90), (90, 90), (180, 90), (180, 0), (0, 0), (10, 20), (90, 45), (45, 0), (0, 1), (1, 0), (179, 1),
@@ -172,6 +179,31 @@ def kernel_jobs(rng, tier):
                     n += 1
                     jobs.append({"kind": "annulus", "cx": cx, "cy": cy, "r": red(k, 4), "ri": red(ki, 4),
                                  "how": hows[n % 7]})
+    # half sizes up to 30 (kernels up to 61 x 61): cells lying EXACTLY on the ellipse must be inside.  The pair
+    # (a, b) is reached with integers: cellsize_x = b, cellsize_y = a, radius = a*b  (and cell 1, radius a for circles).
+    def on_boundary(a, b):      # the boundary passes through a lattice point off the axes
+        return any((x * b) ** 2 + (y * a) ** 2 == (a * b) ** 2 for x in range(1, a) for y in range(1, b))
+    allp = [(a, b) for a in range(1, 31) for b in range(1, 31)]
+    lattice = [p for p in allp if on_boundary(*p)]          # includes the Pythagorean circles 5, 10, 13, 15, 17, ...
+    if tier == "quick":
+        pairs = [(a, a) for a in range(1, 31)] + [p for p in lattice if p[0] != p[1]]
+        pairs += rng.sample([p for p in allp if p not in pairs], 40)
+    else:
+        pairs = allp
+    for (a, b) in pairs:
+        n += 1
+        if a == b and n % 2:
+            cx, cy, r = [1, 1], [1, 1], [a, 1]
+        else:
+            cx, cy, r = [b, 1], [a, 1], [a * b, 1]
+        jobs.append({"kind": "circle", "cx": cx, "cy": cy, "r": r, "how": hows[n % 7], "tag": "half_%d_%d" % (a, b)})
+    # annuli built from the lattice-boundary shapes: inner lattice shape or a few other inner radii, inner = outer
+    for (a, b) in (lattice if tier != "quick" else [p for p in lattice if p[0] == p[1]] + rng.sample(lattice, 12)):
+        cx, cy, r = ([1, 1], [1, 1], a) if a == b else ([b, 1], [a, 1], a * b)
+        for ri in sorted({max(1, r // 4), max(1, (3 * r) // 13), max(1, (5 * r) // 13), max(1, r - 1), r}):
+            n += 1
+            jobs.append({"kind": "annulus", "cx": cx, "cy": cy, "r": [r, 1], "ri": [ri, 1], "how": hows[n % 7],
+                         "tag": "half_annulus_%d_%d" % (a, b)})
     # radii given as strings with units (metres = r), large cells
     for rstr, r, cx, cy in (("1.2km", [1200, 1], [500, 1], [250, 1]), ("0.5 km", [500, 1], [100, 1], [125, 1]),
                             ("12ft", [4572, 1250], [1, 1], [1, 2]), ("2 miles", [402336, 125], [1000, 1], [500, 1]),
